@@ -10,7 +10,7 @@
 (***************************************************************************)
 EXTENDS PropsMath, NumInt, TLC, FiniteSets, Sequences
 
-CONSTANTS XS, AS, RATES, DECS, WS, SS
+CONSTANTS XS, AS, RATES, DECS, WS, SS, FAMS
 
 Opt(S) == {None} \cup {Some(v) : v \in S}
 
@@ -61,7 +61,7 @@ Rest(f) ==  CASE f = "swap"     -> XS \X AS \X RATES
               [] f = "slip"     -> WS \X WS \X WS \X TOLS
 Fams == {"swap", "reverse", "withdraw", "share", "first", "belief", "spread", "slip"}
 
-Init == /\ fam \in Fams
+Init == /\ fam \in (Fams \cap FAMS)
         /\ t \in {<<x>> : x \in First(fam)}
 Next == /\ Len(t) = 1
         /\ t' \in {t \o r : r \in Rest(fam)}
